@@ -369,7 +369,7 @@ func (b *TableColumnGroupBox) span() int {
 	if len(b.Children) != 0 {
 		return len(b.Children)
 	}
-	return integerAttribute(utils.HTMLNode(*b.Element).Get("span"), 1)
+	return spanAttribute(utils.HTMLNode(*b.Element).Get("span"))
 }
 
 // Return cells that originate in the group's columns.
@@ -390,7 +390,18 @@ func NewTableColumnBox(style pr.ElementStyle, element *html.Node, pseudoType str
 }
 
 func (b *TableColumnBox) span() int {
-	return integerAttribute(utils.HTMLNode(*b.Element).Get("span"), 1)
+	return spanAttribute(utils.HTMLNode(*b.Element).Get("span"))
+}
+
+// Read the span attribute of <col> / <colgroup>, clamped to the range [1, 1000]
+// (https://html.spec.whatwg.org/multipage/tables.html#attr-col-span): one box is
+// generated per spanned column.
+func spanAttribute(attr string) int {
+	span := integerAttribute(attr, 1)
+	if span > 1000 {
+		span = 1000
+	}
+	return span
 }
 
 // Read an integer attribute from the HTML element.
